@@ -20,8 +20,9 @@
 //   cmp <tt> <tu> <t> <u>     cmp_equal cmp_not_equal cmp_less cmp_greater cmp_less_equal cmp_greater_equal
 //   conv <to> <from> <x>      in_range<To> saturate_cast<To>
 //   ctbits <ut> <10 values>  the legs of `bits` for the fixed table of ct_bits<T>::vals, joined by " ; ", with the impl leg
-//                             evaluated by the CONSTANT EVALUATOR (constexpr table: the is_constant_evaluated() branch
-//                             of popcount, and any UB would be a compile error); the values are passed for the model
+//                             evaluated by the CONSTANT EVALUATOR when built with -DC14_CT_TABLE (constexpr table: the
+//                             is_constant_evaluated() branch of popcount, and any UB would be a compile error; builds
+//                             `ubsan` and `clang`), at run time otherwise (build `main`); the values are passed for the model
 //   row <lo> <hi> <op> <args...>   runs "<op> <args...> y" for every y in [lo, hi]; the legs are the
 //                             per-y legs joined by " ; "
 //   rox <lo> <hi> <op> <args...> <last>   the same with y inserted before the last argument
@@ -160,7 +161,12 @@ struct ct_bits {
         for (int i = 0; i < N; ++i) { t[static_cast<std::size_t>(i)] = eval(vals[i]); }
         return t;
     }
-    static constexpr std::array<R, N> table = make();   // evaluated at compile time
+#ifdef C14_CT_TABLE
+    // evaluated at compile time (builds `ubsan` and `clang`: g++'s and clang's constant evaluators).  The `main` build
+    // evaluates the same values at run time instead, so that undefined behaviour met by a constant evaluator (a compile
+    // error) breaks only those two builds and `main` still reports the failing input
+    static constexpr std::array<R, N> table = make();
+#endif
 };
 
 // ---- template<size_t Pos> overloads of the single-bit functions: run-time Pos -> instantiation ---------------------
@@ -221,8 +227,12 @@ static bool run_one(std::string const& op, Toks& in, Out& impl, Out& ref)
             for (int i = 0; same && i < C::N; ++i) { same = parse<T>(vs[static_cast<std::size_t>(i)]) == C::vals[i]; }
             if (!same) { impl.tok("table-mismatch"); ref.tok("table-mismatch-ref"); return; }
             for (int i = 0; i < C::N; ++i) {
-                auto const& r = C::table[static_cast<std::size_t>(i)];
                 T x = C::vals[i];
+#ifdef C14_CT_TABLE
+                auto const& r = C::table[static_cast<std::size_t>(i)];
+#else
+                auto const r = C::eval(parse<T>(vs[static_cast<std::size_t>(i)]));
+#endif
                 if (i != 0) { impl.tok(";"); ref.tok(";"); }
                 impl.tok("ok").num(r.pc).num(r.pcf).num(r.clz).num(r.clo).num(r.ctz).num(r.cto).num(r.bw);
                 put(impl, r.bf).b(r.hsb);
